@@ -30,13 +30,22 @@ META = {
             "third leg of every comparison (thorough also compiles a #[derive(Parser)] of grammar.pest as a fourth). When a structural stage or the proof "
             "breaks without a failing text, the rules pinpointed (token-level function diff of the regenerated grammar.rs, DIFF lines of the closure "
             "comparison) are searched: spellings of the rule derived from the grammar (every alternative, every repetition count from min-1 to max+1), "
-            "embedded in every calling rule up to the top rule, the grammar's own trivia at every position, all short strings over the rule's literals.",
+            "embedded in every calling rule up to the top rule, the grammar's own trivia at every position, all short strings over the rule's literals. "
+            "The differential legs (checked-in parser vs pest_vm vs a freshly generated parser) are run for both ways the crates can be built: default features and "
+            "the cargo feature grammar-extras (own harness build, own fresh parser, the fresh token stream also validated structurally against the generator model "
+            "for the rules that build's optimizer prints). The legs share one process and pest has process-wide settings: around every call of a public entry "
+            "(parser::parse, PestParser::parse, Vm::parse, validate_pairs, consume_rules, optimize, parse_and_optimize) on every text the settings a new parser "
+            "state sees (call limit, error detail) must be what they were, also when the caller had set them; parse_and_optimize must end as its own steps do; "
+            "texts of 70 - 300 kB (generated grammars, the shipped grammars with renamed rules, the meta-grammar repeated, a long expression, cut / damaged "
+            "copies) are fed after rejected texts; a setting left behind is followed up by a bisection for the text size at which it changes a leg's answer. "
+            "A disagreement is re-run in a process of its own, alone and then with the texts fed before it, and the replay carries that history.",
     "note": "Trusted: Coq kernel; extraction; the syn reader (strict) and the two python printers of s-expressions as Gallina; VmCompile.v / "
             "Exec.v as models of the VM / ParserState (tied to the code by the differential runs here and by C01/C03). The theorem is about the "
             "closure table read from grammar.rs, not about rustc's compilation of it.",
     "design_ref": "DESIGN.md section 3, C14",
     "coq_targets": ["props/C14.vo", "Extract/GenExtract.vo"],
     "bins": ["c14"],
+    "feature_bins": {"extras": ["c14"]},
 }
 
 
@@ -104,63 +113,153 @@ def fresh_dirs(name):
     return "/tmp/pvharness-%s/%s" % (tag, name), "/tmp/pvtarget-%s-%s" % (tag, name)
 
 
-def build_fresh_generated(hbin):
+def build_fresh_generated(hbin, name="c14gen"):
     """The third leg of the property: the token stream the IN-TREE pest_generator::derive_parser returns for meta/src/grammar.pest (the
     bootstrap invocation; bootstrap/ itself links the crates.io generator), written out as source and compiled against the
-    repository's `pest`.  Returns (exe or None, stage that failed, log)."""
-    d, tdir = fresh_dirs("c14gen")
+    repository's `pest`.  Returns (exe or None, stage that failed, log).  (`name`: one scratch crate per build of the generator.)"""
+    d, tdir = fresh_dirs(name)
     os.makedirs(os.path.join(d, "src"), exist_ok=True)
     rc, src = sh("%s freshgen %s" % (hbin, REPO), timeout=300)
     if rc != 0 or "fn main" not in src:
         return None, "generate", src[-2000:]
     write_if_changed(os.path.join(d, "src", "main.rs"), src)
     write_if_changed(os.path.join(d, "Cargo.toml"),
-                     '[package]\nname = "c14gen"\nversion = "0.0.0"\nedition = "2021"\npublish = false\n\n[workspace]\n\n[dependencies]\n'
+                     '[package]\nname = "%s"\nversion = "0.0.0"\nedition = "2021"\npublish = false\n\n[workspace]\n\n[dependencies]\n'
                      'pest = { path = "%s/pest" }\n\n[profile.release]\nopt-level = 1\noverflow-checks = true\ndebug-assertions = true\npanic = "unwind"\n'
-                     'debug = false\ncodegen-units = 16\n' % REPO.rstrip("/"))
+                     'debug = false\ncodegen-units = 16\n' % (name, REPO.rstrip("/")))
     if not os.path.exists(os.path.join(d, "Cargo.lock")):
         sh("cp %s %s" % (os.path.join(REPO, "Cargo.lock"), os.path.join(d, "Cargo.lock")))
     rc, out = sh("cargo build --release --offline 2>&1", cwd=d, timeout=1500, env={"CARGO_TARGET_DIR": tdir, "RUSTFLAGS": "--cfg %s -Awarnings" % HOOK_CFG})
     if rc != 0:
         return None, "compile", out[-3000:]
-    return os.path.join(tdir, "release", "c14gen"), "", ""
+    return os.path.join(tdir, "release", name), "", ""
+
+
+FEATS = ("", "extras")   # the ways the crates can be built that the legs are run for: default features, grammar-extras
+FEAT_NAME = {"": "default features", "extras": "cargo feature grammar-extras"}
+
+
+def build_legs():
+    """Harness + freshly generated parser for every feature set, the feature sets in parallel (the same directories and cargo
+    invocations as harness_build(["c14"], features=..) of lib/common.py).  {feat: {rc, log, hbin, gen, gstage, glog}}"""
+    import threading
+    hdir, target = harness_dir()
+    if not os.path.exists(os.path.join(hdir, "Cargo.lock")):
+        sh("cp %s %s" % (os.path.join(REPO, "Cargo.lock"), os.path.join(hdir, "Cargo.lock")))
+    legs = {}
+
+    def one(feat):
+        tdir = target + ("-" + feat if feat else "")
+        rc, out = sh("cargo build --release --offline --bin c14 %s 2>&1" % ("--features " + feat if feat else ""), cwd=hdir, timeout=1500,
+                     env={"CARGO_TARGET_DIR": tdir, "RUSTFLAGS": "--cfg %s -Awarnings" % HOOK_CFG})
+        d = {"feat": feat, "rc": rc, "log": out, "hbin": os.path.join(tdir, "release", "c14"), "gen": None, "gstage": "harness", "glog": ""}
+        if rc == 0:
+            d["gen"], d["gstage"], d["glog"] = build_fresh_generated(d["hbin"], "c14gen" + ("x" if feat else ""))
+        legs[feat] = d
+    ts = [threading.Thread(target=one, args=(f,)) for f in FEATS]
+    for t in ts:
+        t.start()
+    for t in ts:
+        t.join()
+    return legs
 
 
 def setup():
-    brc, bout, bdir = harness_build(["c14"])
-    if brc == 0:
-        build_fresh_generated(os.path.join(bdir, "c14"))
+    build_legs()
+
+
+def tag_of(feat):
+    return ("feat=" + feat) if feat else ""
+
+
+def feat_of(case):
+    m = re.search(r" feat=(\S+)", case)
+    return m.group(1) if m else ""
+
+
+PER_CMD = []   # per pipeline of the last run_pipes call: {"cmd", "mism", "stats", "which", "diffs", "stages", "other"}
 
 
 def run_pipes(cmds, timeout=3000):
     outs = run_pipeline(cmds, timeout=timeout)
     del STAGES[:]
+    del PER_CMD[:]
     mism, stats, which, diffs = [], {}, [], []
     for (rc, out), c in zip(outs, cmds):
         m, s, other = parse_runner_output(out)
         if rc != 0 or "mismatches" not in s or "evaluations" not in s:
-            mism.append({"kind": "harness", "case": c, "impl": "pipeline `%s` failed rc=%s" % (c[:200], rc), "expected": out[-800:]})
+            m.insert(0, {"kind": "harness", "case": c, "impl": "pipeline `%s` failed rc=%s" % (c[:200], rc), "expected": out[-800:]})
+        for i, x in enumerate(m):
+            x["pipe"], x["idx"] = len(PER_CMD), i
         mism += m
-        which += [l.split("\t", 1)[1] for l in other if l.startswith("WHICH\t")]
-        diffs += [l.split("\t", 1)[1] for l in other if l.startswith("DIFF\t")]
-        STAGES.extend(l.split("\t", 1)[1] for l in other if l.startswith("STAGES\t"))
+        w = [l.split("\t", 1)[1] for l in other if l.startswith("WHICH\t")]
+        d = [l.split("\t", 1)[1] for l in other if l.startswith("DIFF\t")]
+        st = [l.split("\t", 1)[1] for l in other if l.startswith("STAGES\t")]
+        which += w
+        diffs += d
+        STAGES.extend(st)
         for l in other:
             if l.startswith("LIMIT\t"):
                 q = l.split("\t")
                 LIMITS.append({"kind": "limit", "case": q[1], "impl": q[2] if len(q) > 2 else "", "expected": "Custom call limit reached"})
         for k, v in s.items():
             stats[k] = stats.get(k, 0) + v if isinstance(v, int) else v
+        PER_CMD.append({"cmd": c, "mism": m, "stats": s, "which": w, "diffs": d, "stages": st, "other": other})
     return mism, stats, which, diffs
+
+
+def rerun(leg, cases, timeout=900):
+    """The (rule, hex text) cases, in this order, in ONE fresh process of the harness (and the fresh parser of that build downstream):
+    (disagreements, LIMIT lines, output without the D lines)."""
+    f = os.path.join(BUILD, "c14_seq_%d.txt" % os.getpid())
+    with open(f, "w") as fh:
+        fh.write("".join("%s\t%s\n" % (r, h) for r, h in cases))
+    gen_pipe = ("| %s " % leg["gen"]) if leg["gen"] else ""
+    rc, out = sh("%s diff %s 0 0 seq %s %s| %s -1 %s" % (leg["hbin"], REPO, f, gen_pipe, os.path.join(BUILD, "c14_runner"), tag_of(leg["feat"])), timeout=timeout)
+    m, s, other = parse_runner_output(out)
+    try:
+        os.remove(f)
+    except OSError:
+        pass
+    shown = "\n".join(l[:600] for l in out.split("\n") if not l.startswith("G\t") and not l.startswith("D\t"))
+    return [x for x in m if x["kind"] == "spec"], [l for l in other if l.startswith("LIMIT\t")], shown
+
+
+def read_episodes(path):
+    """[(rule, hex, [(rule, hex) fed before])] written by `c14 large`"""
+    eps = []
+    try:
+        for l in open(path):
+            p = l.rstrip("\n").split("\t")
+            if len(p) >= 3:
+                eps.append((p[0], p[1], [] if p[2] == "-" else [tuple(x.split(":", 1)) for x in p[2].split(",")]))
+    except OSError:
+        pass
+    return eps
+
+
+def case_parts(case):
+    m = re.match(r"r=(\S+) in=(\S+)", case)
+    return (m.group(1), m.group(2)) if m else ("", "")
+
+
+def show_hex(h, n=200):
+    try:
+        t = bytes.fromhex(h).decode("utf-8", "replace") if h != "-" else ""
+    except ValueError:
+        return h[:n]
+    return t if len(t) <= n else "%s .. (%d bytes)" % (t[:n], len(bytes.fromhex(h)))
 
 
 def run(tier, seed, replay=None):
     res = Result("C14", tier, seed, "proof")
     del LIMITS[:]
-    brc, bout, bdir = harness_build(["c14"])
-    if brc != 0:
-        res.violation("harness does not build against the repository (C14 cannot run)", {"theorem_or_correspondence": "C14 (build)", "log": bout[-3000:]}, no_failing_input=True)
+    legs = build_legs()
+    L0, LX = legs[""], legs["extras"]
+    if L0["rc"] != 0:
+        res.violation("harness does not build against the repository (C14 cannot run)", {"theorem_or_correspondence": "C14 (build)", "log": L0["log"][-3000:]}, no_failing_input=True)
         return res.finish()
-    hbin = os.path.join(bdir, "c14")
+    hbin = L0["hbin"]
     readout, lines, problems, xline = regenerate(hbin)
     thm = check_theorems("C14")
     proof_coverage(res, thm, "make -C coq props/C14.vo (coqc 8.16.1, full .vo build) + Print Assumptions", BASE_TRUST + [
@@ -180,28 +279,36 @@ def run(tier, seed, replay=None):
         res.violation("OCaml runner does not build", {"theorem_or_correspondence": "C14 extraction", "log": oout[-3000:]}, no_failing_input=True)
         return res.finish()
 
-    # the third leg: a parser freshly generated by the in-tree generator, compiled
-    gen_exe, gstage, glog = build_fresh_generated(hbin)
+    # the third leg: a parser freshly generated by the in-tree generator, compiled (one per feature set)
+    gen_exe, gstage, glog = L0["gen"], L0["gstage"], L0["glog"]
     gen_pipe = ("| %s " % gen_exe) if gen_exe else ""
 
     if replay:
         rj = json.load(open(replay))
-        rc, out = sh("%s diff %s 0 0 one %s %s %s| %s 100000" % (hbin, REPO, rj.get("rule", "grammar_rules"), rj.get("input", "-"), gen_pipe, runner), timeout=300)
-        m, s, other = parse_runner_output(out)
-        log("replay: " + "\n".join(l[:600] for l in out.split("\n") if not l.startswith("G\t"))[-2000:])
-        sp = [x for x in m if x["kind"] == "spec"]
-        lim = [l for l in other if l.startswith("LIMIT\t")]
+        leg = legs.get(rj.get("features", ""), L0)
+        if leg["rc"] != 0:
+            res.violation("harness does not build against the repository with %s" % FEAT_NAME[leg["feat"]], {"theorem_or_correspondence": "C14 (build)", "log": leg["log"][-3000:]}, no_failing_input=True)
+            return res.finish()
+        pre = [(x.get("rule", "grammar_rules"), x.get("input", "-")) for x in rj.get("pre", [])]
+        sp, lim, shown = rerun(leg, pre + [(rj.get("rule", "grammar_rules"), rj.get("input", "-"))])
+        log("replay: " + shown[-2000:])
+        where = (" (crates built with the %s)" % FEAT_NAME[leg["feat"]] if leg["feat"] else "") + (" after the %d texts of its history were fed in the same process" % len(pre) if pre else "")
         if lim and not sp:
-            res.violation("replayed text: the freshly generated parser still does not finish within %d calls where the checked-in parser returns" % FRESH_CALL_LIMIT,
-                          {"case": rj.get("case", ""), "rule": rj.get("rule", "grammar_rules"), "input": rj.get("input", "-")})
+            res.violation("replayed text: the freshly generated parser still does not finish within %d calls where the checked-in parser returns%s" % (FRESH_CALL_LIMIT, where),
+                          {"case": rj.get("case", ""), "rule": rj.get("rule", "grammar_rules"), "input": rj.get("input", "-"), "pre": rj.get("pre", []), "features": leg["feat"]})
         if sp:
-            res.violation("replayed text is still parsed differently by the checked-in parser and %s" % " / ".join(sorted(set(against_name(x["case"]) for x in sp))),
-                          {"case": rj.get("case", ""), "rule": rj.get("rule", "grammar_rules"), "input": rj.get("input", "-"), "impl": sp[0]["impl"], "other": sp[0]["expected"]})
+            res.violation("replayed text is still parsed differently by the checked-in parser and %s%s" % (" / ".join(sorted(set(against_name(x["case"]) for x in sp))), where),
+                          {"case": rj.get("case", ""), "rule": rj.get("rule", "grammar_rules"), "input": rj.get("input", "-"), "pre": rj.get("pre", []), "features": leg["feat"],
+                           "impl": sp[0]["impl"][:20000], "other": sp[0]["expected"][:20000]})
         return res.finish()
-    if not gen_exe:
-        res.violation("a parser freshly generated from meta/src/grammar.pest by the in-tree generator %s" % (
-                          "cannot be produced (pest_generator::derive_parser fails)" if gstage == "generate" else "does not compile"),
-                      {"theorem_or_correspondence": "C14 fresh parser (%s)" % gstage, "log": glog}, no_failing_input=True)
+    for leg in (L0, LX):
+        if leg["rc"] != 0:
+            res.violation("harness does not build against the repository with %s (the legs cannot be compared for that build)" % FEAT_NAME[leg["feat"]],
+                          {"theorem_or_correspondence": "C14 (build, %s)" % FEAT_NAME[leg["feat"]], "log": leg["log"][-3000:]}, no_failing_input=True)
+        elif not leg["gen"]:
+            res.violation("a parser freshly generated from meta/src/grammar.pest by the in-tree generator (%s) %s" % (FEAT_NAME[leg["feat"]],
+                              "cannot be produced (pest_generator::derive_parser fails)" if leg["gstage"] == "generate" else "does not compile"),
+                          {"theorem_or_correspondence": "C14 fresh parser (%s, %s)" % (leg["gstage"], FEAT_NAME[leg["feat"]]), "log": leg["glog"]}, no_failing_input=True)
 
     # (1) regenerate, byte comparison
     rc, out = sh("%s regen %s" % (hbin, REPO), timeout=300)
@@ -235,30 +342,75 @@ def run(tier, seed, replay=None):
             fresh = os.path.join(tdir, "release", "c14fresh")
         else:
             res.violation("a fresh #[derive(Parser)] of meta/src/grammar.pest does not compile", {"theorem_or_correspondence": "C14 fresh parser (build)", "log": fout[-3000:]}, no_failing_input=True)
-    legs = gen_pipe + (("| %s " % fresh) if fresh else "")   # column order: generated source first, #[derive] second
+    legs_pipe = gen_pipe + (("| %s " % fresh) if fresh else "")   # column order: generated source first, #[derive] second
     if fresh and not gen_exe:
         FRESH_NAMES["fresh"] = FRESH_NAMES["fresh-derive"]
+    L0["pipe"] = legs_pipe
+    LX["pipe"] = ("| %s " % LX["gen"]) if LX["gen"] else ""
     for i, sd in enumerate(seeds):
-        cmds.append("%s diff %s %d %d %s %s| %s %d" % (hbin, REPO, count, sd, "" if i == 0 else "nofixed", legs, runner, maxmodel))
+        cmds.append("%s diff %s %d %d %s %s| %s %d" % (hbin, REPO, count, sd, "" if i == 0 else "nofixed", legs_pipe, runner, maxmodel))
+    # the same comparison for the crates built with grammar-extras (oracle: the real code only; the fresh token stream of that build
+    # structurally against the generator model for the rules that build's optimizer prints)
+    n_default = len(cmds)
+    if LX["rc"] == 0:
+        cmds.append("%s readx %s | %s -1 %s" % (LX["hbin"], REPO, runner, tag_of("extras")))
+        for i, sd in enumerate(seeds[::2] if len(seeds) > 1 else seeds):
+            cmds.append("%s diff %s %d %d %s %s| %s -1 %s" % (LX["hbin"], REPO, count, sd, "" if i == 0 else "nofixed", LX["pipe"], runner, tag_of("extras")))
+    # large texts after rejected ones, the caller's settings around every entry (both builds)
+    pct = 100 if tier == "quick" else 250
+    epfiles = {}
+    for leg in (L0, LX):
+        if leg["rc"] == 0:
+            epfiles[leg["feat"]] = os.path.join(BUILD, "c14_episodes_%s%d.txt" % (leg["feat"], os.getpid()))
+            cmds.append("%s large %s %d %s %d %s| %s -1 %s" % (leg["hbin"], REPO, seed, epfiles[leg["feat"]], pct, leg["pipe"], runner, tag_of(leg["feat"])))
     mism, stats, which, diffs = run_pipes(cmds)
+    per = list(PER_CMD)
+    stats_x = {}
+    for pc in per[n_default:]:
+        if tag_of("extras") and pc["cmd"].rstrip().endswith(tag_of("extras")):
+            for k, v in pc["stats"].items():
+                stats_x[k] = stats_x.get(k, 0) + v if isinstance(v, int) else v
+    stats_large = {}
+    for pc in per:
+        if " large " in pc["cmd"]:
+            for k, v in pc["stats"].items():
+                stats_large[k] = stats_large.get(k, 0) + v if isinstance(v, int) else v
+    episodes = {f: read_episodes(pth) for f, pth in epfiles.items()}
+    for pth in epfiles.values():
+        try:
+            os.remove(pth)
+        except OSError:
+            pass
 
     # ---- targeted failing-input search: a structural / byte-level / Coq-level break without a behavioural witness so far.  The rules to
     # search around: the functions in which the regenerated grammar.rs differs from the checked-in one (token level), and the functions in
     # which the checked-in / the fresh parser differ from the generator model (DIFF lines of the structural stage).  The oracle is the real
-    # code only (checked-in parser vs pest_vm vs the compiled fresh parser); the texts are described in `c14 target`. ----
-    broken = (not regen_ok) or (not thm["ok"]) or any(m["kind"] in ("model", "read") for m in mism)
+    # code only (checked-in parser vs pest_vm vs the compiled fresh parser); the texts are described in `c14 target`.  Per build of the
+    # crates: the default build's structural stages, or the structural stage of the grammar-extras build. ----
     search = None
-    found = [m for m in mism if m["kind"] == "spec"]
-    # (also run when the only failing texts so far are long ones: the search yields short, rule-local ones)
-    if broken and (not found or min(len(m["case"]) for m in found) > 120):
+    for leg in (L0, LX):
+        feat = leg["feat"]
+        if leg["rc"] != 0:
+            continue
+        mine = [m for m in mism if feat_of(m["case"]) == feat]
+        if feat == "":
+            broken = (not regen_ok) or (not thm["ok"]) or any(m["kind"] in ("model", "read") for m in mine)
+            ldiffs = [d for pc in per if not feat_of(pc["cmd"]) for d in pc["diffs"]]
+        else:
+            broken = any(m["kind"] in ("model", "read") for m in mine)
+            ldiffs = [d for pc in per if feat_of(pc["cmd"]) == feat for d in pc["diffs"]]
+        found = [m for m in mine if m["kind"] == "spec"]
+        # (also run when the only failing texts so far are long ones: the search yields short, rule-local ones)
+        if not (broken and (not found or min(len(m["case"]) for m in found) > 120)):
+            continue
         names = []
-        for f in regen_fns:
+        for f in (regen_fns if feat == "" else []):
             parts = f.split("::")
             if len(parts) >= 2 and parts[-2] == "rules":
                 names.append(parts[-1])
             elif parts[-1] == "skip":
                 names += ["WHITESPACE", "COMMENT"]
-        for d in diffs:
+        for d in ldiffs:
             if d.startswith("fn "):
                 names.append(d[3:].strip())
             elif "skip" in d:
@@ -274,18 +426,64 @@ def run(tier, seed, replay=None):
             t0 = time.time()
             tl = 4 if tier == "quick" else 5
             groups = [names[i::NPROC] for i in range(min(NPROC, len(names)))]
-            m2, s2, _, _ = run_pipes(["%s target %s %s %d %s %d %s| %s -1" % (hbin, REPO, ",".join(g), tl, "light" if light else "full", seed, legs, runner) for g in groups if g])
+            m2, s2, _, _ = run_pipes(["%s target %s %s %d %s %d %s| %s -1 %s" % (leg["hbin"], REPO, ",".join(g), tl, "light" if light else "full", seed, leg["pipe"], runner, tag_of(feat)) for g in groups if g])
             stages = list(STAGES)
-            search = {"rules": names, "pinpointed": not light, "texts": s2.get("cases", 0), "compared_with_fresh_parser": s2.get("fresh_compared", 0),
-                      "disagreements": s2.get("spec_differences", 0), "stages": "; ".join(stages)[:3000], "wall_s": round(time.time() - t0, 1)}
-            log("C14: targeted search on the %s %s: %d (rule, text) cases on the checked-in parser, pest_vm and %s (spellings of each rule at every repetition count and "
+            this = {"build": FEAT_NAME[feat], "rules": names, "pinpointed": not light, "texts": s2.get("cases", 0), "compared_with_fresh_parser": s2.get("fresh_compared", 0),
+                    "disagreements": s2.get("spec_differences", 0), "stages": "; ".join(stages)[:3000], "wall_s": round(time.time() - t0, 1)}
+            search = this if search is None else ([search, this] if isinstance(search, dict) else search + [this])
+            log("C14: targeted search (%s) on the %s %s: %d (rule, text) cases on the checked-in parser, pest_vm and %s (spellings of each rule at every repetition count and "
                 "alternative, embedded in every calling rule, trivia at every position, strippable / normalisable characters around and inside%s), %d disagreements (%.0fs)" % (
-                    "differing rules" if not light else "rules (nothing pinpointed)", ", ".join(names[:12]) + (" .." if len(names) > 12 else ""), s2.get("cases", 0),
-                    "the fresh parser" if gen_exe else "NO fresh parser", "" if light else ", all strings up to length %d over the rules' literal alphabet" % tl,
+                    FEAT_NAME[feat], "differing rules" if not light else "rules (nothing pinpointed)", ", ".join(names[:12]) + (" .." if len(names) > 12 else ""), s2.get("cases", 0),
+                    "the fresh parser" if leg["gen"] else "NO fresh parser", "" if light else ", all strings up to length %d over the rules' literal alphabet" % tl,
                     s2.get("spec_differences", 0), time.time() - t0))
-            mism += [m for m in m2 if m["kind"] in ("spec", "harness")]
-            for k in ("cases", "evaluations", "distinct_nontrivial", "spec_differences", "fresh_compared", "entry_vs_generated", "parse_and_optimize_vs_vm"):
+            keep = [m for m in m2 if m["kind"] in ("spec", "harness")]
+            for m in keep:
+                m["pipe"] = -1
+            mism += keep
+            for k in ("cases", "evaluations", "distinct_nontrivial", "spec_differences", "fresh_compared", "entry_vs_generated", "parse_and_optimize_vs_vm", "settings_checks", "parse_and_optimize_vs_steps"):
                 stats[k] = stats.get(k, 0) + s2.get(k, 0)
+
+    # ---- a public entry changed pest's process-wide settings and no text has shown the legs apart so far: look for the text size at which
+    # the call limit left behind starts to change a leg's answer (`c14 large .. LEAKFILE`) ----
+    settings_m = [m for m in mism if m["kind"] == "settings"]
+    leak_search = None
+    if settings_m and not [m for m in mism if m["kind"] == "spec"]:
+        t0 = time.time()
+        seen, lcmds, lfeat = set(), [], []
+        for m in sorted(settings_m, key=lambda m: len(m["case"])):
+            rule, inp = case_parts(m["case"])
+            feat = feat_of(m["case"])
+            if (rule, inp, feat) in seen or len(lcmds) >= 4 or "cl=Some" not in m["impl"]:
+                continue
+            seen.add((rule, inp, feat))
+            lf = os.path.join(BUILD, "c14_leak_%d_%d.txt" % (os.getpid(), len(lcmds)))
+            with open(lf, "w") as fh:
+                fh.write("%s\t%s\n" % (rule, inp))
+            ef = os.path.join(BUILD, "c14_leakep_%d_%d.txt" % (os.getpid(), len(lcmds)))
+            leg = legs[feat]
+            lcmds.append("%s large %s %d %s %d %s %s| %s -1 %s" % (leg["hbin"], REPO, seed, ef, pct, lf, leg["pipe"], runner, tag_of(feat)))
+            lfeat.append((feat, ef, lf))
+        if lcmds:
+            m3, s3, _, _ = run_pipes(lcmds)
+            notes = [l.split("\t", 1)[1] for pc in PER_CMD for l in pc["other"] if l.startswith("LEAKSEARCH\t")]
+            for feat, ef, lf in lfeat:
+                episodes.setdefault(feat, [])
+                episodes[feat] += read_episodes(ef)
+                for x in (ef, lf):
+                    try:
+                        os.remove(x)
+                    except OSError:
+                        pass
+            keep = [m for m in m3 if m["kind"] in ("spec", "harness")]
+            for m in keep:
+                m["pipe"] = -1
+            mism += keep
+            leak_search = {"leaking_calls_followed_up": len(lcmds), "texts": s3.get("cases", 0), "bytes": s3.get("large_bytes", 0), "disagreements": s3.get("spec_differences", 0),
+                           "notes": notes, "wall_s": round(time.time() - t0, 1)}
+            log("C14: a public entry leaves a call limit behind; search for the text size at which it changes a leg's answer: %s; %d texts compared, %d disagreements (%.0fs)" % (
+                "; ".join(notes)[:600], s3.get("cases", 0), s3.get("spec_differences", 0), time.time() - t0))
+            for k in ("cases", "evaluations", "distinct_nontrivial", "spec_differences", "fresh_compared"):
+                stats[k] = stats.get(k, 0) + s3.get(k, 0)
 
     # texts on which only the fresh parser ran into its call limit: reported (with the text) when nothing else was found, after a re-run
     # of the text in a process of its own
@@ -295,56 +493,107 @@ def run(tier, seed, replay=None):
             mm = re.match(r"r=(\S+) in=(\S+) against=(\S+)", cand["case"])
             if not mm:
                 continue
-            rc, o1 = sh("%s diff %s 0 0 one %s %s %s| %s -1" % (hbin, REPO, mm.group(1), mm.group(2), legs, runner), timeout=600)
-            if any(l.startswith("LIMIT\t") for l in o1.split("\n")):
+            sp1, lim1, _ = rerun(legs[feat_of(cand["case"])], [(mm.group(1), mm.group(2))])
+            if lim1:
                 limit_v = (cand, mm.group(1), mm.group(2))
                 break
     if LIMITS:
         log("C14: %d texts on which a freshly generated parser ran into its call limit (%d calls) while the checked-in parser returned" % (stats.get("fresh_limited", len(LIMITS)), FRESH_CALL_LIMIT))
     spec_m = [m for m in mism if m["kind"] == "spec"]
+    settings_m = [m for m in mism if m["kind"] == "settings"]
     model_m = [m for m in mism if m["kind"] == "model"]
     read_m = [m for m in mism if m["kind"] == "read"]
-    other_m = [m for m in mism if m["kind"] not in ("spec", "model", "read")]
+    other_m = [m for m in mism if m["kind"] not in ("spec", "model", "read", "settings")]
     if spec_m:
         spec_found = True
         # the shortest text; a disagreement on the token forest / the error position and sets before one that shows only in what the result says
         # about the text (identity of the token tree's input, line and line/column of the error: after " ## ")
-        worst = min(spec_m, key=lambda m: (m["impl"].split(" ## ")[0] == m["expected"].split(" ## ")[0], len(m["case"])))
+        ranked = sorted(spec_m, key=lambda m: (m["impl"].split(" ## ")[0] == m["expected"].split(" ## ")[0], len(m["case"])))
+        # every leg lives in one process with the texts fed before: the candidate is re-run in a process of its own - alone, then after the
+        # texts its episode fed before it / after the last call that changed pest's settings before it, then after all earlier episodes.
+        # The replay carries the history that makes it reproduce.
+        worst, pre, confirmed = ranked[0], [], None
+        for cand in ranked[:3]:
+            if cand["case"] == "grammar.pest":
+                worst, confirmed = cand, True
+                break
+            rule, inp = case_parts(cand["case"])
+            leg = legs[feat_of(cand["case"])]
+            hist = []
+            eps = episodes.get(leg["feat"], [])
+            for k, (er, eh, epre) in enumerate(eps):
+                if (er, eh) == (rule, inp) or (rule, inp) in epre:
+                    if epre and (er, eh) == (rule, inp):
+                        hist.append(list(epre))
+                    allprev = [x for (r2, h2, p2) in eps[:k] for x in p2 + [(r2, h2)]] + (list(epre) if (er, eh) == (rule, inp) else [])
+                    if allprev and allprev not in hist:
+                        hist.append(allprev)
+                    break
+            if cand.get("pipe", -1) >= 0:
+                before = [m for m in per[cand["pipe"]]["mism"] if m["kind"] == "settings" and m["idx"] < cand["idx"]]
+                if before:
+                    hist.insert(0 if not hist else 1, [case_parts(before[-1]["case"])])
+            if not hist and settings_m:
+                hist.append([case_parts(settings_m[0]["case"])])
+            for h in [[]] + hist:
+                sp1, lim1, _ = rerun(leg, h + [(rule, inp)])
+                if sp1:
+                    worst, pre, confirmed = cand, h, True
+                    break
+            if confirmed:
+                break
+            confirmed = False
         m = re.match(r"r=(\S+) in=(\S+) against=(\S+)", worst["case"])
         rule, inp, against = (m.group(1), m.group(2), m.group(3)) if m else ("", "", "")
-        try:
-            shown = bytes.fromhex(inp).decode("utf-8", "replace") if inp != "-" else ""
-        except ValueError:
-            shown = inp
+        feat = feat_of(worst["case"])
+        shown = show_hex(inp)
+        ctx = (" [crates built with the %s]" % FEAT_NAME[feat] if feat else "")
+        if pre:
+            leak = [x for x in settings_m if case_parts(x["case"]) in pre]
+            ctx += " [after %s had been fed to the same entries in the same process%s; alone in a fresh process the text is parsed alike]" % (
+                ", ".join("%s on %r" % (r, show_hex(h, 60)) for r, h in pre[:3]) + (" .. (%d texts)" % len(pre) if len(pre) > 3 else ""),
+                "; %s left pest's process-wide settings at `%s` (before: `%s`)" % (leak[0]["case"].split(" entry=")[-1].split()[0], leak[0]["impl"], leak[0]["expected"]) if leak else "")
+        if confirmed is False:
+            ctx += " [seen in the run; not reproduced in a process of its own, neither alone nor with the history tried]"
+        extra = {"pre": [{"rule": r, "input": h} for r, h in pre], "features": feat}
         if worst["case"] == "grammar.pest":
             res.violation("%s" % worst["impl"][:400], {"theorem_or_correspondence": "C14: the checked-in parser on its own grammar file", "case": worst["case"], "impl": worst["impl"]})
         elif " entry=" in worst["case"]:
-            entry = worst["case"].split(" entry=")[-1]
-            res.violation("the public entry %s of the checked-in grammar parser and %s disagree: rule %s on text %r: `%s` vs `%s` (%d disagreeing cases in this run)" % (
-                              entry, against_name(worst["case"]), rule, shown[:200], worst["impl"][:200], worst["expected"][:200], stats.get("spec_differences", len(spec_m))),
-                          {"theorem_or_correspondence": "C14 oracle: the public entries of the checked-in parser (pest_meta::parser::parse, parse_and_optimize) vs the generated "
-                                                        "PestParser they wrap vs pest_vm (real code)", "case": worst["case"],
-                           "rule": rule, "input": inp, "impl": worst["impl"], "other": worst["expected"]})
+            entry = worst["case"].split(" entry=")[-1].split()[0]
+            res.violation("the public entry %s of the checked-in grammar parser and %s disagree%s: rule %s on text %r: `%s` vs `%s` (%d disagreeing cases in this run)" % (
+                              entry, against_name(worst["case"]), ctx, rule, shown[:200], worst["impl"][:200], worst["expected"][:200], stats.get("spec_differences", len(spec_m))),
+                          dict({"theorem_or_correspondence": "C14 oracle: the public entries of the checked-in parser (pest_meta::parser::parse, parse_and_optimize) vs the generated "
+                                                             "PestParser they wrap vs pest_vm vs their own steps (real code)", "case": worst["case"][:2000],
+                                "rule": rule, "input": inp, "impl": worst["impl"][:20000], "other": worst["expected"][:20000]}, **extra))
         else:
-            res.violation("the checked-in grammar parser and %s disagree: rule %s on text %r: checked-in `%s` vs `%s` (%d disagreeing cases in this run)" % (
-                              against_name(worst["case"]), rule, shown[:200], worst["impl"][:200],
+            res.violation("the checked-in grammar parser and %s disagree%s: rule %s on text %r: checked-in `%s` vs `%s` (%d disagreeing cases in this run)" % (
+                              against_name(worst["case"]), ctx, rule, shown[:200], worst["impl"][:200],
                               worst["expected"][:200], stats.get("spec_differences", len(spec_m))),
-                          {"theorem_or_correspondence": "C14 oracle: pest_meta::parser::parse vs pest_vm vs freshly generated parser (real code)", "case": worst["case"],
-                           "rule": rule, "input": inp, "impl": worst["impl"], "other": worst["expected"]})
+                          dict({"theorem_or_correspondence": "C14 oracle: pest_meta::parser::parse vs pest_vm vs freshly generated parser (real code)", "case": worst["case"][:2000],
+                                "rule": rule, "input": inp, "impl": worst["impl"][:20000], "other": worst["expected"][:20000]}, **extra))
+    if settings_m:
+        w = min(settings_m, key=lambda m: len(m["case"]))
+        rule, inp = case_parts(w["case"])
+        res.violation("a call of the public entry %s%s changes pest's process-wide settings (which every later parse of the process runs under: all legs of the property, "
+                      "on every later text): rule %s on text %r: before `%s`, after `%s` (%d such calls in this run)" % (
+                          w["case"].split(" entry=")[-1].split()[0], " [%s]" % FEAT_NAME[feat_of(w["case"])] if feat_of(w["case"]) else "", rule, show_hex(inp),
+                          w["expected"], w["impl"], stats.get("settings_changed", len(settings_m))),
+                      {"theorem_or_correspondence": "C14 oracle on the implementation: the public entries of the grammar front end leave pest's call limit / error detail as they were",
+                       "case": w["case"][:2000], "rule": rule, "input": inp, "features": feat_of(w["case"]), "impl": w["impl"], "before": w["expected"]}, no_failing_input=not spec_found)
     if limit_v and not spec_m:
         cand, rule, inp = limit_v
         spec_found = True
         res.violation("a parser freshly generated from grammar.pest by the in-tree generator does not finish within %d calls (pest's call limit) on rule %s, text %r, "
                       "which the checked-in parser (and the VM) parse with the result `%s` (%d such texts in this run)" % (
-                          FRESH_CALL_LIMIT, rule, bytes.fromhex(inp).decode("utf-8", "replace")[:200] if inp != "-" else "", cand["impl"][:200], stats.get("fresh_limited", len(LIMITS))),
-                      {"theorem_or_correspondence": "C14 oracle: pest_meta::parser::parse vs freshly generated parser (real code), termination", "case": cand["case"],
-                       "rule": rule, "input": inp, "impl": cand["impl"], "other": "Custom call limit reached"})
+                          FRESH_CALL_LIMIT, rule, show_hex(inp), cand["impl"][:200], stats.get("fresh_limited", len(LIMITS))),
+                      {"theorem_or_correspondence": "C14 oracle: pest_meta::parser::parse vs freshly generated parser (real code), termination", "case": cand["case"][:2000],
+                       "rule": rule, "input": inp, "features": feat_of(cand["case"]), "impl": cand["impl"][:20000], "other": "Custom call limit reached"})
     if not regen_ok:
         res.violation("meta/src/grammar.rs is not what the generator emits for meta/src/grammar.pest: %s" % (regen[0].split("\t", 2)[2][:600] if regen else out[-300:]),
                       {"theorem_or_correspondence": "C14 (1): bootstrap regeneration, byte comparison", "detail": regen[0] if regen else out[-2000:]},
                       no_failing_input=not spec_found)
     for m in read_m:
-        res.violation("%s could not be read back: %s" % (field_what(m["case"]), m["impl"][:300]),
+        res.violation("%s could not be read back%s: %s" % (field_what(m["case"]), " [%s]" % FEAT_NAME[feat_of(m["case"])] if feat_of(m["case"]) else "", m["impl"][:300]),
                       {"theorem_or_correspondence": "C14 (2): reader", "case": m["case"][:2000], "impl": m["impl"]}, no_failing_input=not spec_found)
     if model_m:
         tvm = [m for m in model_m if " at=" in m["case"]]
@@ -378,9 +627,11 @@ def run(tier, seed, replay=None):
     if not thm["ok"]:
         res.violation("proof obligation no longer checks (meta-grammar outside H, or the checked-in closures are not the generator model's): " + "; ".join(thm["problems"]),
                       {"theorem_or_correspondence": "coq/props/C14.v", "log": thm["log"][-3000:]}, no_failing_input=not spec_found)
-    log("C14: regeneration %s; %d differential cases (%d through the model, %d comparisons with a compiled freshly generated parser), %d .pest files; meta-grammar: %s rules, in H: %s; optimizer cross-check: %s" % (
-        "byte-identical" if regen_ok else "DIFFERENT", stats.get("cases", 0), stats.get("modelled", 0), stats.get("fresh_compared", 0), stats.get("pest_files", 0) // max(1, len(seeds)),
-        stats.get("rules", 0) // max(1, len(seeds)), "yes" if stats.get("in_H", 0) == len(seeds) else "NO", "proved" if orc2 == 0 else "not built"))
+    log("C14: regeneration %s; %d differential cases (%d through the model, %d comparisons with a compiled freshly generated parser; %d of the cases with the crates built with grammar-extras), "
+        "%d .pest files; %d large texts (%d kB) after rejected ones; %d checks that an entry leaves pest's settings alone; meta-grammar: %s rules, in H: %s; optimizer cross-check: %s" % (
+        "byte-identical" if regen_ok else "DIFFERENT", stats.get("cases", 0), stats.get("modelled", 0), stats.get("fresh_compared", 0), stats_x.get("cases", 0),
+        per[1]["stats"].get("pest_files", 0) if len(per) > 1 else 0, stats_large.get("cases", 0), stats_large.get("large_bytes", 0) // 1024, stats.get("settings_checks", 0),
+        per[1]["stats"].get("rules", 0) if len(per) > 1 else 0, "yes" if all(pc["stats"].get("in_H", 0) == 1 for pc in per if "rules" in pc["stats"] and not feat_of(pc["cmd"])) else "NO", "proved" if orc2 == 0 else "not built"))
     res.coverage.update({
         "evaluations": stats.get("evaluations", 0),
         "distinct_nontrivial": stats.get("distinct_nontrivial", 0),
@@ -393,15 +644,31 @@ def run(tier, seed, replay=None):
                 "spelling of EVERY rule, fed to that rule, and in front of / behind / inside the shipped and the generated grammars, fed to the top rule (%d such texts); "
                 "one evaluation = one (rule, text); non-trivial = a parse producing tokens or failing past position 0" % stats.get("entry_char_texts", 0),
         "exhaustive": False,
-        "samples": ["grammar_rules on meta/src/grammar.pest", "string on \"\\\"a\\\"\"", "expression on `a ~ b | c`"],
+        "samples": ["grammar_rules on meta/src/grammar.pest", "string on \"a\"", "expression on `a ~ b | c`"],
         "runner_cases": stats.get("cases", 0),
         "mismatches": len(mism),
         "regeneration": "identical" if regen_ok else "different",
         "legs": "every text: checked-in parser through its public entry pest_meta::parser::parse AND through the generated PestParser::parse the entry wraps "
                 "(forest / error, identity of the input the token tree refers to, line and line/column of the error), pest_vm on parse_and_optimize(grammar.pest); "
-                "top-rule texts also pest_meta::parse_and_optimize (a parse error iff pest_vm has one, the same one)" + (
+                "top-rule texts also pest_meta::parse_and_optimize (a parse error iff pest_vm has one, the same one; the same outcome as its steps parse, validate_pairs, "
+                "consume_rules, optimize called one after the other)" + (
                     ", the in-tree derive_parser output for grammar.pest compiled as source" if gen_exe else " (NO freshly generated parser: it could not be built)") + (
                     ", a compiled #[derive(Parser)] of grammar.pest" if fresh else "") + "; texts of at most %d bytes also the extracted model" % maxmodel,
+        "feature_sets": {"default features": "all stages",
+                         "grammar-extras": ("not run: the harness does not build with the feature" if LX["rc"] != 0 else
+                                            "checked-in parser vs pest_vm vs %s on the same text families (generated grammars with node tags and PUSH_LITERAL): %d cases, %d disagreements; "
+                                            "fresh token stream read back against the generator model for that build's optimized rules" % (
+                                                "the fresh parser that build's generator emits" if LX["gen"] else "NO fresh parser (it could not be built)",
+                                                stats_x.get("cases", 0), stats_x.get("spec_differences", 0)))},
+        "large_texts_after_rejected_ones": {"texts": stats_large.get("cases", 0), "bytes": stats_large.get("large_bytes", 0), "episodes": stats_large.get("large_episodes", 0),
+                                            "what": "generated grammars, the shipped grammars with renamed rules, the meta-grammar repeated, one long expression; each after a rejected text "
+                                                    "(syntax error, undefined rule, duplicate rule, a cut / damaged large grammar); both builds"},
+        "settings_oracle": {"checks": stats.get("settings_checks", 0), "changes_seen": stats.get("settings_changed", 0),
+                            "what": "after every call of parser::parse, PestParser::parse, Vm::parse, validate_pairs, consume_rules, optimize, parse_and_optimize in every case of every "
+                                    "stage: the call limit and error-detail flag a new ParserState sees are what they were before the call (default settings; in the large-text "
+                                    "stage also with a call limit of 50,000,000 and error detail set by the caller)",
+                            "follow_up": leak_search if leak_search else "not run (no entry changed the settings, or a failing text was already found)"},
+        "parse_and_optimize_vs_steps_comparisons": stats.get("parse_and_optimize_vs_steps", 0),
         "entry_vs_generated_parser_comparisons": stats.get("entry_vs_generated", 0),
         "parse_and_optimize_vs_vm_comparisons": stats.get("parse_and_optimize_vs_vm", 0),
         "fresh_parser_comparisons": stats.get("fresh_compared", 0),
@@ -410,14 +677,16 @@ def run(tier, seed, replay=None):
     })
     res.assumptions = ["model runs are limited to texts of at most %d bytes (unary positions in the extracted model)" % maxmodel,
                        "the freshly generated parsers run under pest's call limit of %d calls per parse (a parse that reaches it is reported separately, "
-                       "never as agreement); the checked-in parser and the VM run without a limit" % FRESH_CALL_LIMIT]
+                       "never as agreement); the checked-in parser and the VM run without a limit" % FRESH_CALL_LIMIT,
+                       "the settings oracle reads the settings through the verification hook ParserState::verif_dump (cfg pest_parser_pest_verif)"]
     return res.finish()
 
 
 FRESH_NAMES = {"vm": "pest_vm on parse_and_optimize(grammar.pest)",
                "direct": "the generated PestParser::parse of meta/src/grammar.rs that it wraps (same text, called directly)",
                "fresh": "a parser freshly generated from grammar.pest by the in-tree generator (derive_parser output compiled as source)",
-               "fresh-derive": "a freshly compiled #[derive(Parser)] of grammar.pest"}
+               "fresh-derive": "a freshly compiled #[derive(Parser)] of grammar.pest",
+               "parts": "its own steps (pest_meta::parser::parse, validator::validate_pairs, parser::consume_rules, optimizer::optimize called one after the other on the same text)"}
 
 
 def against_name(case):
